@@ -88,16 +88,11 @@ def verify(contract: Contract, registry, repo=None) -> FunctionReport:
                 if out.kind != "end":
                     case.check(out)
                 rep.obligations.extend(out.ctx.obls)
-            # vacuity guard: the entry hypotheses of the case must be satisfiable-or-unknown
+            # vacuity guard: `False` posed under the entry hypotheses of the case must NOT be provable
             first = outcomes[0]
-            s = z3.Solver()
-            s.set("timeout", 3000)
-            for h in first.ctx.hyps[: first.ex.entry_nhyps]:
-                s.add(h)
-            r = str(s.check())
-            rep.vacuity.append((case.label, r))
-            if r == "unsat":
-                rep.status, rep.reason = "vacuous", f"precondition of case {case.label} is contradictory"
+            from .logic import Obligation
+            rep.obligations.append(Obligation(f"{fname}#vacuity.entry", "vacuity", first.ex.entry_nhyps,
+                                              z3.BoolVal(False), 0, first.ctx))
     except Unsupported as e:
         rep.status, rep.reason = "unsupported", str(e)
         rep.obligations = []
